@@ -86,7 +86,7 @@ def compare(model, tracedir, only_types=None, skip_types=(), cpu=True, thread=Tr
                         if len(probs) >= maxprobs:
                             return probs
         if cpu:
-            for row, (nrun, urow, virtual) in cps.items():
+            for row, (nrun, urow, virtual, _ever) in cps.items():
                 exp = {3: nrun}
                 if urow is not None:
                     (state, cpurow, tid, pid, raw) = ths[urow]
